@@ -145,11 +145,38 @@ fn rename_rule_variables(rule: &Rule, counter: &mut usize) -> Rule {
     }
 }
 
+/// Smallest counter value such that no generated rule variable name `v<counter>` (or any later
+/// one) coincides with a variable of the query itself.
+fn first_free_variable_index(query: &TriplePattern) -> usize {
+    fn visit(term: &Term, next: &mut usize) {
+        match term {
+            Term::Variable(v) => {
+                let index = v.strip_prefix('v').and_then(|d| d.parse::<usize>().ok());
+                if let Some(after) = index.and_then(|n| n.checked_add(1)) {
+                    *next = (*next).max(after);
+                }
+            }
+            Term::Constant(_) => {}
+            Term::QuotedTriple(qt) => {
+                visit(&qt.0, next);
+                visit(&qt.1, next);
+                visit(&qt.2, next);
+            }
+        }
+    }
+    let mut next = 0;
+    visit(&query.0, &mut next);
+    visit(&query.1, &mut next);
+    visit(&query.2, &mut next);
+    next
+}
+
 impl Reasoner {
     /// Returns all variable bindings that satisfy `query` via backward chaining.
     pub fn backward_chaining(&self, query: &TriplePattern) -> Vec<HashMap<String, Term>> {
         let bindings = HashMap::new();
-        let mut variable_counter = 0;
+        // Rule variables are renamed apart to v<n>; start above every v<n> the query uses
+        let mut variable_counter = first_free_variable_index(query);
         self.backward_chaining_helper(query, &bindings, 0, &mut variable_counter)
     }
 
